@@ -137,3 +137,8 @@ package ws
 // ---- round 12: the scheme string ----
 //@ func (wsTran).Scheme
 //@   ensures result == "ws"
+
+// ---- round 12: pipe options ----
+//@ func (*wsPipe).GetOption
+//@   ensures has(w.options, name) ==> isnil(result1) && result0 == w.options[name]
+//@   ensures !has(w.options, name) ==> isnil(result0) && result1 == mangos.ErrBadOption
